@@ -139,6 +139,16 @@ class StlAstParserVisitor(LtlAstParserVisitor, StlParserVisitor):
     def visitInterval(self, ctx):
         begin, begin_unit = self.visit(ctx.intervalTime(0))
         end, end_unit = self.visit(ctx.intervalTime(1))
+        # 0 <= begin <= end, compared as durations (a missing unit is defaulted as in time_unit_transformer)
+        b_unit = begin_unit
+        e_unit = end_unit
+        if len(b_unit) == 0:
+            b_unit = e_unit if len(e_unit) > 0 else self.unit
+        if len(e_unit) == 0:
+            e_unit = b_unit
+        if begin < 0 or begin * self.U[b_unit] > end * self.U[e_unit]:
+            raise RTAMTException('The bounds of the interval [{0}{1},{2}{3}] must satisfy 0 <= begin <= end'.format(
+                begin, begin_unit, end, end_unit))
         interval = Interval(begin, end, begin_unit, end_unit)
         return interval
 
